@@ -12,10 +12,10 @@ cp tests/seed_demo.rs $OUT/seed_demo.rs 2>/dev/null
 mv tests/seed_demo.rs /tmp/seeds/$ID.demo.rs
 suite=$(cargo test --workspace --no-fail-fast --offline 2>&1 | grep -E "^test result" | awk '{p+=$4; f+=$6} END {print p" passed, "f" failed"}')
 mv /tmp/seeds/$ID.demo.rs tests/seed_demo.rs
-with=$(cargo test --offline --test seed_demo 2>&1 | grep -E "^test result|^error(\[|:)" | head -2 | tr '\n' ' ')
-git stash -q
-without=$(cargo test --offline --test seed_demo 2>&1 | grep -E "^test result|^error(\[|:)" | head -2 | tr '\n' ' ')
-git stash pop -q
+with=$(cargo test --offline ${SEED_FEATURES:-} --test seed_demo 2>&1 | grep -E "^test result|^error(\[|:)" | head -2 | tr '\n' ' ')
+git diff > /tmp/seeds/$ID.own.patch; git apply -R /tmp/seeds/$ID.own.patch   # (git stash is shared between worktrees: not safe next to running agents)
+without=$(cargo test --offline ${SEED_FEATURES:-} --test seed_demo 2>&1 | grep -E "^test result|^error(\[|:)" | head -2 | tr '\n' ' ')
+git apply /tmp/seeds/$ID.own.patch
 echo "suite with change: $suite"; echo "demo with change: $with"; echo "demo without change: $without"
 cd /verif
 results=""
